@@ -25,7 +25,16 @@ def eq_twins(seed, count, shard, nshards, hashmode=0):
         ops += ["new %s 1" % kind] + ["push 1 %d %d %d%s" % (k, 200 + i, p, tg) for i, (k, p) in enumerate(sh)]
         ops += ["eq 0 1", "eq 1 0"]
         cur = dict(pairs)
-        for _ in range(rng.randrange(0, 6)):          # perturb register 1 and come back
+        # a leaked iter_mut leaves register 1 with a stale heap order (its root is no longer
+        # an extreme) while it holds the same set as register 0: they must still compare equal
+        stale = n >= 2 and rng.randrange(4) == 0
+        if stale:
+            k0 = sh[0][0]
+            w = (hi + 5) if rng.randrange(2) else -5
+            ops += ["itermut 1 direct forget 1 n:%d:-" % w, "chg 0 %d %d" % (k0, w), "eq 0 1", "eq 1 0",
+                    "clone 1 2", "eq 1 2", "eq 2 0"]
+            cur[k0] = w
+        for _ in range(0 if stale else rng.randrange(0, 6)):          # perturb register 1 and come back
             if not cur:
                 break
             k = rng.choice(list(cur))
